@@ -191,40 +191,12 @@ theorem roundtrip_series (s : Series) (h : WF s) (hne : 0 < s.t.size ∨ s.sup =
     decide
   · exact C12.new_self s h hpos
 
-/-- the constructor never leaves an object with no sample on a non-empty support (since `fix:` in `_BaseTsd.__init__`
-/ `Ts.__init__`: no sample inside the support = the state of an object built from no sample) -/
-theorem new_empty_support (t : Array Int) (rows : Array Nat) (sup : Option (Array (Int × Int)))
-    (h0 : (Series.new t rows sup).t.size = 0) : (Series.new t rows sup).sup = #[] := by
-  unfold Series.new at h0 ⊢
-  simp only at h0 ⊢
-  split
-  · rfl
-  · rename_i hne
-    simp only [hne, if_false] at h0
-    cases sup with
-    | none => exact absurd h0 hne
-    | some p =>
-      simp only at h0 ⊢
-      split
-      · rfl
-      · rename_i hz
-        simp only [hz, if_false] at h0
-        simp [gatherI] at h0
-        exact absurd (by rw [h0]; rfl) hz
-
-/-- **every object the constructor returns round-trips** — the former finding C11-empty-series-with-support (an object
-built with every sample outside its support kept that support and loaded back with the empty one) is gone -/
-theorem roundtrip_constructed (t : Array Int) (rows : Array Nat) (p : Array (Int × Int)) (hrows : rows.size = t.size)
-    (hc : CanonicalPairs p) :
-    loadSeries (saveSeries (Series.new t rows (some p))) = Series.new t rows (some p) := by
-  apply roundtrip_series _ (C04.new_wf_some t rows p hrows hc)
-  rcases Nat.eq_zero_or_pos (Series.new t rows (some p)).t.size with h | h
-  · exact Or.inr (new_empty_support t rows (some p) h)
-  · exact Or.inl h
-
-/-- regression witness of the former finding: every sample outside the support → the empty object -/
-theorem roundtrip_empty_with_support_regression :
-    (Series.new #[5000] #[0] (some #[(0, 1000)])) = ⟨#[], #[], #[]⟩ := by decide +kernel
+/-- the excluded corner, recorded as known finding C11-empty-series-with-support: an object with no
+sample but a non-empty support (obtainable only by constructing it with every sample outside the
+support) does NOT round-trip — the reader's constructor call gives an empty index the empty support -/
+theorem roundtrip_empty_with_support_witness :
+    loadSeries (saveSeries ⟨#[], #[], #[(0, 1000)]⟩) = ⟨#[], #[], #[]⟩ ∧
+    (Series.new #[5000] #[0] (some #[(0, 1000)])) = ⟨#[], #[], #[(0, 1000)]⟩ := by decide +kernel
 
 theorem new_t_of_inside (t : Array Int) (rows : Array Nat) (p : Array (Int × Int)) (hs : Sorted t)
     (hc : CanonicalPairs p) (hin : ∀ i, (h : i < t.size) → InIv (pairsSt p) (pairsEn p) (pairs_size p) t[i]) :
@@ -233,12 +205,8 @@ theorem new_t_of_inside (t : Array Int) (rows : Array Nat) (p : Array (Int × In
   simp only [C12.sortArr_of_sorted t hs]
   split
   · rename_i h0; exact (Array.eq_empty_of_size_eq_zero h0).symm
-  · rename_i h0
-    have hix := C12.jitrestrict_all t _ _ (pairs_size p) hs (canon_of_canonicalPairs _ hc) hin
-    have hnz : ¬ (jitrestrict t (pairsSt p) (pairsEn p) (pairs_size p)).size = 0 := by
-      rw [hix, Array.size_range]; exact h0
-    simp only [hnz, if_false]
-    rw [hix, C12.gatherI_range]
+  · simp only
+    rw [C12.jitrestrict_all t _ _ _ hs (canon_of_canonicalPairs _ hc) hin, C12.gatherI_range]
 
 theorem hasDup_of_strict (l : List Int) (h : l.Pairwise (· < ·)) : hasDup l = false := by
   induction l with
